@@ -66,7 +66,7 @@ func c11Get(l int) *c11Set {
 }
 
 func init() {
-	for _, l := range []int{3, 5, 6} {
+	for _, l := range []int{2, 3, 5, 6} {
 		c11Get(l)
 	}
 	Registry["C11"] = func(args []string) int { return fw.Main(c11Spec, args) }
@@ -80,6 +80,11 @@ func c11Gen(tier string, emit func(c11Case)) {
 	for _, strict := range []bool{false, true} {
 		for _, g := range c11Get(3).strs {
 			emit(c11Case{Kind: "group", Strict: strict, P: g, L: 3})
+		}
+	}
+	for _, strict := range []bool{false, true} {
+		for _, g := range c11Get(2).strs {
+			emit(c11Case{Kind: "group2", Strict: strict, P: g, L: 2})
 		}
 	}
 	for _, enc := range []bool{false, true} {
@@ -194,6 +199,48 @@ func c11Run(c c11Case, st *fw.Stats) []fw.Viol {
 				}
 			}
 		}
+	case "group2":
+		// nested groups: each prefix is normalised on its own, then concatenated
+		set := c11Get(2)
+		norms := set.norm[b2i(c.Strict)]
+		more := c11Get(3)
+		mnorms := more.norm[b2i(c.Strict)]
+		ng1 := refmodel.Norm(c.P, c.Strict)
+		for g2i, g2 := range set.strs {
+			for pi, p := range set.strs {
+				var r *rux.Router
+				var rt *rux.Route
+				if pv := try(func() {
+					r = rux.New(c11Opts(c.Strict)...)
+					r.Group(c.P, func() { r.Group(g2, func() { rt = r.GET(p, h) }) })
+				}); pv != nil {
+					add("group:panic", fmt.Sprintf("strict=%v: Group(%q){Group(%q){GET(%q)}} panicked: %v", c.Strict, c.P, g2, p, pv))
+					continue
+				}
+				want := refmodel.Norm(ng1+norms[g2i]+norms[pi], c.Strict)
+				st.Evals++
+				if rt.Path() != want {
+					add("group:nested-path", fmt.Sprintf("strict=%v: Group(%q){Group(%q){GET(%q)}}: route path %q, expected the prefixes' and the path's normal forms joined and re-normalised = %q", c.Strict, c.P, g2, p, rt.Path(), want))
+					continue
+				}
+				if (g2i*len(set.strs)+pi)%7 != 0 {
+					continue
+				}
+				for qi, q := range more.strs {
+					st.Evals++
+					wantReach := mnorms[qi] == want
+					if wantReach {
+						st.Nontrivial++
+					}
+					var got bool
+					if pv := try(func() { m, _, _ := r.Match("GET", q); got = m != nil }); pv != nil {
+						add("lookup:panic", fmt.Sprintf("strict=%v: nested groups %q,%q path %q: Match(GET,%q) panicked: %v", c.Strict, c.P, g2, p, q, pv))
+					} else if got != wantReach {
+						add(fmt.Sprintf("group:reach:want=%v", wantReach), fmt.Sprintf("strict=%v: Group(%q){Group(%q){GET(%q)}} (path %q): request %q reaches it = %v", c.Strict, c.P, g2, p, want, q, got))
+					}
+				}
+			}
+		}
 	case "encoded":
 		toks := []string{"/", "a", "%2F", "%20", " ", "%2f", "b"}
 		var opts []func(*rux.Router)
@@ -247,7 +294,7 @@ var c11Spec = fw.Spec[c11Case]{
 	ID:    "C11",
 	Level: "model_checking",
 	Rule: "complete enumeration: ALL strings of length <=L over {'/',' ','.','a','b',TAB} as registered path P and as request path Q - the full P x Q square in both StrictLastSlash modes (one evaluation = one lookup of Q on a router holding P; reach <=> Norm(Q)==Norm(P)); " +
-		"all G x P x Q over strings of length <=3 for group prefixes; all raw paths of <=4 tokens over {/,a,b,%2F,%2f,%20,space} under both UseEncodedPath settings; non-trivial = a (P,Q) pair that must reach the route / an escaped path that differs from the decoded one",
+		"all G x P x Q over strings of length <=3 for group prefixes and all nested G1 x G2 x P over strings of length <=2; all raw paths of <=4 tokens over {/,a,b,%2F,%2f,%20,space} under both UseEncodedPath settings; non-trivial = a (P,Q) pair that must reach the route / an escaped path that differs from the decoded one",
 	Assume: []string{"alphabet of 6 characters; L=5 quick, 6 thorough", "net/url's EscapedPath is taken as the definition of 'the escaped path'"},
 	Bounds: func(tier string) map[string]any {
 		L := 5
